@@ -86,11 +86,12 @@ def unreleasedKeys : List String := [
   "Runner.fillExpandConfig+go|openfile|path,os.O_RDONLY"
 ]
 
-/-- where `Runner.stop` is consulted: the placement the skeleton model mirrors (stmt, cmd entry and
-    the while-loop head, call) — not in `stmts`, `loopStmtsBroken`, nor in the two `for` loops -/
+/-- where `Runner.stop` is consulted: the placement the skeleton model mirrors (stmt; cmd entry, the
+    while-loop head and — since 7ead8d8 — the top of every word-list `for` iteration; call) — not in
+    `stmts`, `loopStmtsBroken`, nor in the C-style `for` loop -/
 def stopCalls : List (String × String × Nat) := [
   ("Runner.stmt", "stop-call", 1),
-  ("Runner.cmd", "stop-call", 2),
+  ("Runner.cmd", "stop-call", 3),
   ("Runner.call", "stop-call", 1)
 ]
 
